@@ -4,7 +4,7 @@
 
    Units: a quarter of a fine (flow-direction) cell; the fine grid has FR x FC
    cells of size 4 with lower-left corner at the origin.  A coarse grid is
-   [rho, ox, oy, rc, cc]: cell size 4*rho, lower-left corner (ox, oy), rc x cc
+   [cs, ox, oy, rc, cc]: cell size cs (4 = one fine cell; 6 = ratio 1.5), lower-left corner (ox, oy), rc x cc
    cells.  Offsets are chosen so that no fine centre lies on a coarse edge
    (the property lets either neighbour own such a centre; those cases are not
    used for exact conformance).  The environment decides cell by cell whether
@@ -29,8 +29,8 @@ FineCentre(fr, fc, k) == <<4 * (k % fc) + 2, 4 * (fr - 1 - (k \div fc)) + 2>>
 \* ---- contract
 InCoarse(g, c, p) == LET col == c % g.cc
                          rowb == g.rc - 1 - (c \div g.cc)
-                     IN /\ g.ox + 4 * g.rho * col < p[1] /\ p[1] < g.ox + 4 * g.rho * (col + 1)
-                        /\ g.oy + 4 * g.rho * rowb < p[2] /\ p[2] < g.oy + 4 * g.rho * (rowb + 1)
+                     IN /\ g.ox + g.cs * col < p[1] /\ p[1] < g.ox + g.cs * (col + 1)
+                        /\ g.oy + g.cs * rowb < p[2] /\ p[2] < g.oy + g.cs * (rowb + 1)
 CountDef(fr, fc, S, g, c) == Cardinality({k \in S : InCoarse(g, c, FineCentre(fr, fc, k))})
 CellsDef(fr, fc, S, g) == {c \in 0..(g.rc * g.cc - 1) : CountDef(fr, fc, S, g, c) > 0}
 InsideCount(fr, fc, S, g) == Cardinality({k \in S : \E c \in 0..(g.rc * g.cc - 1) : InCoarse(g, c, FineCentre(fr, fc, k))})
@@ -42,8 +42,8 @@ Nearest(fr, fc, k, pts) == CHOOSE j \in 1..Len(pts) :
 VoronoiDef(fr, fc, S, pts) == [j \in 1..Len(pts) |-> Cardinality({k \in S : Nearest(fr, fc, k, pts) = j})]
 
 \* ---- model of the kernels
-CoarseCellOf(g, p) == LET nx == (p[1] - g.ox) \div (4 * g.rho)
-                          ny == g.rc - 1 - ((p[2] - g.oy) \div (4 * g.rho))
+CoarseCellOf(g, p) == LET nx == (p[1] - g.ox) \div (g.cs)
+                          ny == g.rc - 1 - ((p[2] - g.oy) \div (g.cs))
                       IN IF nx < 0 \/ nx >= g.cc \/ ny < 0 \/ ny >= g.rc THEN -1 ELSE ny * g.cc + nx
 SetToSeq(S) == LET RECURSIVE F(_)
                    F(T) == IF T = {} THEN <<>> ELSE LET m == CHOOSE m \in T : \A x \in T : m <= x IN <<m>> \o F(T \ {m})
@@ -70,15 +70,17 @@ VoronoiModel(fr, fc, cells, pts) ==
    IN Go(1, [j \in 1..Len(pts) |-> 0])
 
 \* ---- configurations explored for every cell set
-Coarse == { [rho |-> 1, ox |-> 0, oy |-> 0, rc |-> FR, cc |-> FC],
-            [rho |-> 2, ox |-> 0, oy |-> 0, rc |-> 2, cc |-> 2],
-            [rho |-> 2, ox |-> -4, oy |-> 4, rc |-> 2, cc |-> 2],
-            [rho |-> 2, ox |-> -3, oy |-> -5, rc |-> 2, cc |-> 3],
-            [rho |-> 3, ox |-> 1, oy |-> -1, rc |-> 1, cc |-> 2],
-            [rho |-> 3, ox |-> -7, oy |-> -9, rc |-> 2, cc |-> 2],
-            [rho |-> 4, ox |-> -5, oy |-> -3, rc |-> 1, cc |-> 1],
-            [rho |-> 4, ox |-> 4, oy |-> 4, rc |-> 2, cc |-> 2],
-            [rho |-> 2, ox |-> 40, oy |-> 40, rc |-> 2, cc |-> 2] }      \* no overlap
+Coarse == { [cs |-> 4, ox |-> 0, oy |-> 0, rc |-> FR, cc |-> FC],
+            [cs |-> 8, ox |-> 0, oy |-> 0, rc |-> 2, cc |-> 2],
+            [cs |-> 8, ox |-> -4, oy |-> 4, rc |-> 2, cc |-> 2],
+            [cs |-> 8, ox |-> -3, oy |-> -5, rc |-> 2, cc |-> 3],
+            [cs |-> 12, ox |-> 1, oy |-> -1, rc |-> 1, cc |-> 2],
+            [cs |-> 12, ox |-> -7, oy |-> -9, rc |-> 2, cc |-> 2],
+            [cs |-> 16, ox |-> -5, oy |-> -3, rc |-> 1, cc |-> 1],
+            [cs |-> 16, ox |-> 4, oy |-> 4, rc |-> 2, cc |-> 2],
+            [cs |-> 8, ox |-> 40, oy |-> 40, rc |-> 2, cc |-> 2],       \* no overlap
+            [cs |-> 6, ox |-> -1, oy |-> -3, rc |-> 3, cc |-> 3],        \* non-integer ratio 1.5: up to 4 centres per cell
+            [cs |-> 10, ox |-> 1, oy |-> -5, rc |-> 2, cc |-> 2] }       \* ratio 2.5
 PointSets == { << <<2, 2>> >>, << <<2, 2>>, <<6, 2>> >>, << <<4, 4>>, <<4, 4>> >>, << <<0, 0>>, <<8, 8>>, <<0, 8>> >>,
                << <<-10, 3>>, <<30, 3>> >>, << <<6, 6>>, <<2, 6>>, <<6, 2>> >>,
                \* clustered points within half a cell of one centre, the later ones closer
